@@ -115,17 +115,20 @@ class ShadowGen:
         files = {}
         order = []
         prefix_pool = []
-        main = [{"d": "proto", "name": "main"}]
+        # the proto's own name may be one of the names definitions carry (a message named like its proto, an import
+        # whose as-name equals the importing proto's name): a proto is not a member of itself
+        main = [{"d": "proto", "name": r.choice(["main", "main", "main", "A", "B", "C", "L"])}]
         if self.with_lib and r.random() < 0.6:
             save = self.declared
             self.declared = []
             libdecls = self.file_decls([])
             libdeclared = self.declared
             self.declared = save
-            files["lib"] = [{"d": "proto", "name": "lib"}] + libdecls
+            libname = r.choice(["lib", "lib", "lib", "A", "B"])
+            files["lib"] = [{"d": "proto", "name": libname}] + libdecls
             order.append("lib")
             asname = r.choice([None, None, "A", "B", "L"])
-            ref = asname or "lib"
+            ref = asname or libname         # an imported file is a member under its as-name or its proto name
             prefix_pool = [ref]
             imp = {"d": "import", "file": "lib", "as": asname}
             pos_later = r.random() < 0.2
